@@ -10,8 +10,8 @@
 (*                                                                         *)
 (* State: mem  = the running server's pattern table (pattern -> setting),  *)
 (*        disk = what settings.json holds,                                 *)
-(*        memo = every resolution observed so far, keyed by the SET of     *)
-(*               registered patterns and the name.                         *)
+(*        memo = every resolution observed so far: set of registered       *)
+(*               patterns -> name -> set of patterns that were applied.    *)
 (* C21 demands that the resolution is a FUNCTION of (set of patterns,      *)
 (* name): memo is never reset - not by a restart, not when a fresh server  *)
 (* registers the same set in another order - and a strict Lookup must      *)
@@ -62,10 +62,11 @@ Res(p)        == [pat |-> p, set |-> Eff(mem[p])]
 DefaultRes(n) == [pat |-> n, set |-> DefaultSet]
 
 NoPatterns == [q \in {} |-> <<>>]
+NoMemo     == [P \in {} |-> <<>>]
 
 Init ==
   /\ mem = NoPatterns /\ disk = NoPatterns
-  /\ memo = {} /\ ops = 0
+  /\ memo = NoMemo /\ ops = 0
 
 \* RegisterPattern: the last registration of a pattern carries its settings; persisted at once
 Register(p, s) ==
@@ -92,12 +93,20 @@ LookupOK(n, R) ==
         ELSE IF "MapOrderLookup" \in Dev
              THEN R \subseteq {Res(p) : p \in M}
              ELSE /\ \E p \in Maximal(n, P) : R = {Res(p)}
-                  /\ \A m \in memo : (m.P = P /\ m.n = n) => R = {Res(m.pat)}
+                  /\ (P \in DOMAIN memo /\ n \in DOMAIN memo[P]) => {r.pat : r \in R} = memo[P][n]
 
-\* B = set of <<name, set of results>>, all looked up in the current state
+MergeObs(f, g) ==
+  [n \in DOMAIN f \cup DOMAIN g |->
+     (IF n \in DOMAIN f THEN f[n] ELSE {}) \cup (IF n \in DOMAIN g THEN g[n] ELSE {})]
+
+\* B = set of <<name, set of results>> (one entry per name), all looked up in the current state
 LookupBatch(B) ==
   /\ \A b \in B : LookupOK(b[1], b[2])
-  /\ memo' = memo \cup UNION {{[P |-> DOMAIN mem, n |-> b[1], pat |-> r.pat] : r \in b[2]} : b \in B}
+  /\ LET P == DOMAIN mem
+         new == [n \in {b[1] : b \in B} |-> UNION {{r.pat : r \in b[2]} : b \in {c \in B : c[1] = n}}]
+     IN memo' = IF P \in DOMAIN memo
+                  THEN [memo EXCEPT ![P] = MergeObs(@, new)]
+                  ELSE [Q \in DOMAIN memo \cup {P} |-> IF Q = P THEN new ELSE memo[Q]]
   /\ ops' = ops + 1 /\ UNCHANGED <<mem, disk>>
 
 Lookup(n, r) == LookupBatch({<<n, {r}>>})
@@ -119,12 +128,12 @@ Bounded == ops <= MaxOps
 
 \* the pattern that applies is a function of the set of registered patterns and the name:
 \* same across lookups, registration orders (memo is keyed by the set), re-registration, restarts
-Functional ==
-  \A m1, m2 \in memo : (m1.P = m2.P /\ m1.n = m2.n) => m1.pat = m2.pat
+Functional == \A P \in DOMAIN memo : \A n \in DOMAIN memo[P] : Cardinality(memo[P][n]) = 1
 
 \* the most specific matching pattern wins; the default applies only when nothing matches
 MostSpecific ==
-  \A m \in memo : IF Matching(m.n, m.P) = {} THEN m.pat = m.n ELSE m.pat \in Maximal(m.n, m.P)
+  \A P \in DOMAIN memo : \A n \in DOMAIN memo[P] :
+     IF Matching(n, P) = {} THEN memo[P][n] = {n} ELSE memo[P][n] \subseteq Maximal(n, P)
 
 \* the same settings apply again after a restart
 Persisted == mem = disk
